@@ -981,7 +981,7 @@ Proof.
 Qed.
 
 (* ------------------------------------------------------------------ one cursor object, several screens *)
-(* proposed repair (fix_C15_4): a derived rich form is never inherited from another screen, so the
+(* the tree (since 8f58d2d): a derived rich form is never inherited from another screen, so the
    rich form a screen works with was derived for its own format *)
 Theorem rich_cache_matches_format : forall tag fmt c c' r,
   tag <> None ->
@@ -1000,7 +1000,7 @@ Qed.
 
 Definition fmt8 : pixfmt := mkfmt 1 7 7 3 0 3 6.
 
-(* the tree: the built-in cursor, painted once on an 8-bit screen, then used by a 32-bit screen:
+(* record of F15d (before 8f58d2d): the built-in cursor, painted once on an 8-bit screen, then used by a 32-bit screen:
    rfbShowCursor reads beyond the cached buffer (explicit error value) *)
 Lemma rich_cache_old_refuted :
   exists c1 r1, ensure_rich fmt8 default_cursor = Some (c1, r1) /\
